@@ -5,7 +5,7 @@ from vlib.engine import Prop, Failure
 MODES = ["string", "stream", "pipe", "file", "allfile", "mmap"]
 VARIANTS = ["cstring", "pipe0"]   # OpenMem(p, -1) on a NUL-free input; OpenPipe(NULL, complete command)
 NATURAL = ["auto", "open"]     # esl_buffer_OpenFile / esl_buffer_Open without forcing: mode chosen from the file size (slurped here)
-PAGES = [1, 2, 3, 4, 5, 7, 8, 16, 64, 512, 4096]
+PAGES = [1, 2, 3, 4, 5, 7, 8, 16, 64, 512, 4096, 1024, 8192]   # the last two: appended (wild cases use PAGES[:9])
 K_STABLE = "C05:stable-anchor:realloc-in-refill"
 K_MEMEND = "C05:setoffset:beyond-end-in-memory"
 K_AHEAD = "C05:anchor:ahead-of-cursor"
@@ -592,7 +592,25 @@ def open_mk(prop, name, line, ops, **kw):
 def _gz(plain): return _gzip.compress(plain, mtime=0)
 
 
+import shutil as _shutil
+HAVE_GZIP = _shutil.which("gzip") is not None
+
+
+def _open_drop_gz(cases):
+    """without a gzip executable the `gzip -dc` pipe is not 'delivers the bytes': leave out the cases that go through it"""
+    if HAVE_GZIP: return cases
+    return [c for c in cases if not (open_oracle(c["ops"][0]).get("gz"))]
+
+
 def open_corpus(prop, ctx=None):
+    return _open_drop_gz(_open_corpus(prop, ctx))
+
+
+def open_cases(prop, rng, quick, ctx=None):
+    return _open_drop_gz(_open_cases(prop, rng, quick, ctx))
+
+
+def _open_corpus(prop, ctx=None):
     if _os.environ.get("C05_NO_OPEN"): return []          # timing aid: the check without the fsopen cases
     _open_sync(ctx)
     out = []
@@ -652,7 +670,7 @@ OPEN_SHORT = [b"a", b"b", b"d1", b"d2", b"..", b"x", b"b/"]       # <= 2 bytes: 
 OPEN_LONG = [b"dir", b"../e", b"../..", b"d1/x", b"nonexistent", b"long/er/dir", b"a/b", b"d2/"]
 
 
-def open_cases(prop, rng, quick, ctx=None):
+def _open_cases(prop, rng, quick, ctx=None):
     if _os.environ.get("C05_NO_OPEN"): return []
     _open_sync(ctx)
     fixed = OPEN_STATE["uses_path"]
